@@ -42,12 +42,21 @@ def _c03_shrink(req):
 CFG = {
     "level": "proof",
     "level_text": "Lean 4 theorems over a line-by-line model of src/bits/elias_fano.rs (build, select1 over the shared "
-                  "scan, read_low_bits, get, predecessor, cursor/cursor_from, the cursor state machine, the iterator), "
-                  "for every sample rate >= 1; tie: SELECT_SAMPLE_RATE re-extracted from source each run and every "
-                  "operation diffed against the compiled model on generated sequences and cursor histories.",
-    "level_note": "Trusts the Lean kernel, the hand-written model's fidelity (checked differentially), "
-                  "the modelled core primitives (count_ones, trailing_zeros, leading_zeros) and that select_in_word "
-                  "equals its spec (property C02).",
+                  "scan, read_low_bits incl. the two-word straddle, get, predecessor, cursor/cursor_from, the cursor "
+                  "state machine, the iterator), for every sample rate >= 1 and every non-decreasing u32 sequence: "
+                  "no operation panics; len/universe/get/predecessor/iteration equal the plain sequence; the cursor "
+                  "invariant is established by cursor/cursor_from, preserved by every operation, and by induction "
+                  "every finite operation history is observed (return value, current, index, is_exhausted) exactly "
+                  "as on the plain sequence. Side conditions, both exhibited as findings: the high-bit vector has at "
+                  "most 2^32 positions (implied by len <= 1 431 655 744; beyond it `global_pos as u32` truncates a "
+                  "select sample) and advance_by(k) does not overflow `idx + k` (len + k < 2^64). Tie: "
+                  "SELECT_SAMPLE_RATE re-extracted from source each run and every operation diffed against the "
+                  "compiled model on generated sequences and cursor histories.",
+    "level_note": "Trusts the Lean kernel, the hand-written model's fidelity (checked differentially, with the "
+                  "plain-sequence oracle also run in-process by the harness), the modelled core primitives "
+                  "(count_ones, trailing_zeros, leading_zeros) and that select_in_word equals its spec (property C02). "
+                  "usize arithmetic other than advance_by's `idx + k` is modelled unbounded (all such values are "
+                  "< 3*len + 64).",
     "technique": "Lean 4 proof (refinement invariant + induction over operation lists); differential correspondence vs compiled model",
     "variants": [{"features": []}],
     "lean_modules": ["SuccinctlyVerif.Props.C03"],
